@@ -96,11 +96,24 @@ def _run(ctx, case, rec):
         kind = case["repr"]
         refined = has_refined(case["desc"])
 
+        spins = [0]
+
         def mapping(geno, nth):
             before_calls, before_tags = len(src.calls), len(tags)
             state = src.random.getstate()
             try:
-                prog = rep.genotype_to_phenotype(geno)
+                if kind == "stack":  # the stack mapper can spin on a gene cycle (no listed property): bound each mapping
+                    if spins[0] >= 2:
+                        prog = workload.StackMappingSpun()
+                    else:
+                        try:
+                            with core.time_limit(1.0):
+                                prog = rep.genotype_to_phenotype(geno)
+                        except core.CaseTimeout:
+                            spins[0] += 1
+                            prog = workload.StackMappingSpun()
+                else:
+                    prog = rep.genotype_to_phenotype(geno)
             except core.CaseTimeout:
                 raise
             except BaseException as e:  # noqa
